@@ -1196,6 +1196,43 @@ class SymArray:
 
 _OOB = object()
 ACCESSES = 0            # number of index normalisations performed (evidence: how many accesses were checked)
+class SparseSymArray:
+    """1-d integer array of SYMBOLIC length backed by a z3 array term (for tables that are far too long to
+    enumerate, e.g. a frequency table of upper-bound+1 entries).  Every access carries 0 <= idx < length
+    (negative indices are reported: such tables are never meant to wrap)."""
+
+    def __init__(self, name, length, init=0, dtype=None):
+        self.name = name
+        self.length = lift(length)
+        self.arr = z3.K(z3.IntSort(), z3.IntVal(init)) if init is not None else z3.Array(name, z3.IntSort(), z3.IntSort())
+        self.dtype = dtype
+        self.accesses = []
+
+    def __len__(self):
+        raise EngineError("len() of a table of symbolic length")
+
+    @property
+    def shape(self):
+        return (mk(self.length),)
+
+    def _idx(self, key):
+        global ACCESSES
+        ACCESSES += 1
+        k = lift(key)
+        self.accesses.append(k)
+        ENG.oblige(z3.And(k >= 0, k < self.length), f"index in range: {self.name} (symbolic length)")
+        return k
+
+    def __getitem__(self, key):
+        return mk(z3.Select(self.arr, self._idx(key)))
+
+    def __setitem__(self, key, val):
+        k = self._idx(key)
+        g = cur_guard()
+        new = z3.Store(self.arr, k, lift(val))
+        self.arr = new if g is None else z3.If(g, new, self.arr)
+
+
 WRAP_REPORT = False
 WRAP_SITES: list = []
 
@@ -1347,10 +1384,31 @@ class NPShim:
         return a.copy() if isinstance(a, SymArray) else self._np.copy(a)
 
     def copyto(self, dst, src, casting="same_kind"):
-        if isinstance(dst, SymArray):
-            dst._assign_all(src)
-        else:
+        if not isinstance(dst, SymArray):
             self._np.copyto(dst, src, casting=casting)
+            return
+        dt = dst.dtype
+        if casting == "unsafe" and dt is not None and dt.lo is not None and isinstance(src, SymArray):
+            # numpy wraps silently: a value that does not fit becomes some other value of the dtype
+            # (over-approximated by a fresh value), a value that fits is stored as it is
+            vals = src.cells_list()
+            pos = list(dst._positions())
+            if len(vals) != len(pos):
+                raise ValueError("shape mismatch in copyto")
+            for p, v in zip(pos, vals):
+                if isinstance(v, SymInt) or z3.is_expr(dt.lo) or z3.is_expr(dt.hi):
+                    self._ctr += 1
+                    g = z3.Int(f"wrapped{self._ctr}")
+                    ENG.assume_fast(z3.And(g >= dt.lo, g <= dt.hi))
+                    ve = lift(v)
+                    dst.cells[p] = mk(z3.If(z3.And(ve >= dt.lo, ve <= dt.hi), ve, g))
+                else:
+                    if not (dt.lo <= v <= dt.hi):
+                        span = dt.hi - dt.lo + 1
+                        v = (v - dt.lo) % span + dt.lo
+                    dst.cells[p] = v
+            return
+        dst._assign_all(src)
 
     def array(self, data, dtype=None):
         if isinstance(data, SymArray):
